@@ -25,6 +25,9 @@ CHECKS = {
  "C20": ("exploration", "runtime monitor: own classifier of the accepted level texts vs 9 parsing entry points with sentinel targets; HTTP handler driven by intent-carrying request templates and random requests, invariants checked after every request against live loggers",
          "All 256 values x text forms, every case mix of every name, special and random byte strings through Level/AtomicLevel UnmarshalText, Set, ParseLevel, ParseAtomicLevel, JSON, YAML and flag parsing (accepted set exact, target untouched on failure); seeded sequences of 1-30 HTTP requests (in-process recorder and a real loopback server for a subset) with per-request invariants: change only by PUT naming a valid level, exact level, reported level = level in force, 4xx otherwise, live loggers follow.",
          "Non-ASCII case folding, JSON {\"level\":\"\"}, trailing JSON bytes and content types with parameters are recorded don't-care zones judged by the invariants only.", "3/C20"),
+ "C14": ("exploration", "runtime monitor: reference sweep written from the statement; observer core + encoder spy compare the main entry's fields; conservation check that every malformed argument is identified in an error-level diagnostic; fmt as oracle for messages",
+         "Every argument list over an 8-symbol alphabet up to length 4 (quick) / 5 (thorough) is enumerated and longer lists over 12 symbols sampled, through With, WithLazy, every *w method and Logw at every level: well-formed arguments must appear exactly as the reference sweep (typed fields unchanged, string-keyed pairs as zap.Any, first bare error under 'error'), every dangling key / non-string-key pair (position, key, value) / additional error must be identified in an error-level entry, nothing may panic. Seeded templates and argument lists through all 42 print/printf/println methods are compared with fmt.Sprint/Sprintf/Sprintln.",
+         "Caller annotation of zap's own diagnostic entries is a don't-care. Open known finding D13 (empty template with arguments).", "3/C14"),
 }
 NOT_YET = {}
 props = [json.loads(l) for l in open(os.path.join(V, "properties.jsonl"))]
